@@ -1254,6 +1254,12 @@ impl<'a> Elab<'a> {
                     // dropping a plain value: nothing observable
                     return expr_block(vec![]);
                 }
+                // `drop(f(..))`: the value of a call, dropped at once (a plain value here: RAII values are always bound to locals
+                // in the extracted code)
+                if matches!(peel_paren(&c.args[0]), Expr::MethodCall(_) | Expr::Call(_)) {
+                    let e = self.fold_expr(c.args[0].clone());
+                    return parse_quote!({ let _ = #e; });
+                }
                 self.unsupported("drop of a non-local", sp);
             }
             // erased wrappers: Arc::new(x) → x
@@ -1397,6 +1403,29 @@ impl<'a> Elab<'a> {
         let sp = i.span();
         // `if let PAT = EXPR`
         if let Expr::Let(l) = &*i.cond {
+            // weak references into a modelled heap (`heapupgrade H`): `if let Some(x) = W.upgrade() { B }` ⇒
+            // `if H.alive_(&W) { let mut x = H.take_(&W); B; H.put_(x); }` — B works on the object the weak reference names
+            if let (Some(h), Expr::MethodCall(mc), None) = (self.u.heapupgrade.clone(), peel_paren(&l.expr), &i.else_branch) {
+                if mc.method == "upgrade" && mc.args.is_empty() {
+                    let mut names = vec![];
+                    Self::pat_idents(&l.pat, &mut names);
+                    if names.len() != 1 {
+                        self.unsupported("upgrade pattern with other than one binding", sp);
+                    }
+                    let x = ident(&names[0]);
+                    let hp = ident(&h);
+                    let w = self.fold_expr((*mc.receiver).clone());
+                    let saved = self.env.clone();
+                    self.unbind(&names[0]);
+                    let body = self.fold_block_scoped(i.then_branch.clone(), vec![]);
+                    self.env = saved;
+                    return parse_quote!(if #hp.alive_(&#w) {
+                        let mut #x = #hp.take_(&#w);
+                        #body
+                        #hp.put_(#x);
+                    });
+                }
+            }
             // R6: `if let Some(x) = <weak>.upgrade()`
             if self.is_upgrade_like(&l.expr) {
                 let mut names = vec![];
